@@ -84,6 +84,18 @@ CLAIMED = {
         "Differential oracle (stated by the property); operations run one after the other, never interleaved.",
         "5/C08",
     ),
+    "C10": (
+        "exhaustive one-cell hostile substitution + container fault enumeration + sampled pairs, exception-type oracle",
+        "A pool of 79 hostile values is put into every cell of every row kind of four valid base CIDs (one per data "
+        "format, all field types, both checks) and into every data cell, one cell at a time (exhaustive) and in "
+        "sampled pairs; csv / fixed bytes get undecodable bytes at every offset; ODS, XLSX and the bundled XLS files "
+        "are truncated at every offset and bit-flipped; the CID is loaded, data read in two modes, validated, "
+        "written, and the command line run in-process. Only InterfaceError (loading) and DataError (data) may "
+        "escape and main must not return 4.",
+        "DistinctCount rule cells only receive texts from a safe alphabet (the check evals its rule); RegEx rules "
+        "avoid nested quantifiers; cases exceeding 3 s CPU (xlrd loops on some damaged XLS) are counted, not judged.",
+        "5/C10",
+    ),
     "C11": (
         "complete enumeration of the property x format x value x spelling matrix against documented expectations",
         "Every data-format property is set in every format with every documented spelling of 105 code points, "
